@@ -118,7 +118,11 @@ func generalPlan(tier string, faults bool) []PlanItem {
 		PlanItem{healthLate(scnFailoverDel("failover-del2-K1", K1, "A", "B")), d},
 		PlanItem{healthLate(scnRestart("restart/stop-K1", K1, Item{Do: "stop"})), d},
 		PlanItem{equalPrioTakeover(scnRestart("restart/stop-takeover-equal-K1", K1, Item{Do: "stop"})), d},
-		PlanItem{equalPrioTakeover(scnStop("stop/stopctx-del-takeover-equal-K1", K1, Item{Do: "stopctx", DeleteKey: true}, "A", "B")), d})
+		PlanItem{equalPrioTakeover(scnStop("stop/stopctx-del-takeover-equal-K1", K1, Item{Do: "stopctx", DeleteKey: true}, "A", "B")), d},
+		// shutdowns that fail: the promotion callback needs 300 ms to wind down but the
+		// shutdown waits 100 ms only; the context handed to StopWithContext has expired
+		PlanItem{failingStop(scnStop("stop/stopctx+wait+to100ms", K1, Item{Do: "stopctx", WaitForDemote: true, Timeout: 100 * ms}, "A", "B")), d},
+		PlanItem{failingStop(scnStop("stop/stopctx+expired-ctx", K1, Item{Do: "stopctx", CtxTimeout: -1}, "A", "B")), d})
 	items = append(items,
 		PlanItem{scnRestartLate("restart-late/stop-K1", K1, Item{Do: "stop"}), d},
 		PlanItem{scnRestartLate("restart-late/stopctx-K1", K1, Item{Do: "stopctx"}), d},
@@ -147,6 +151,7 @@ func generalPlan(tier string, faults bool) []PlanItem {
 			PlanItem{scnPreemptDemotedStop("preempt-demoted-then-stopdel-K1-dropall", K1), d},
 			PlanItem{scnHealthWindowTakeover("takeover-inside-health-check-K1", K1), d},
 			PlanItem{scnFollowerTakeover("follower-takeover-K1", K1), d},
+			PlanItem{scnPreemptThenRelease("preempt-then-release-K1", K1), d},
 			PlanItem{scnReelectLinger("reelect-lingering-callbacks-K1", K1), d},
 			PlanItem{scnReelectSlowMetric("reelect-during-slow-demotion-metric-K1", K1), d},
 			PlanItem{scnTwoRoundsThenDelete("two-rounds-then-outside-delete-K1", K1), d},
@@ -362,4 +367,32 @@ func connStopPlan(tier string) []PlanItem {
 		}
 	}
 	return items
+}
+
+// failingStop: slow callbacks, and a horizon beyond the expiry of the record the stopped
+// instance leaves behind (whatever the failed shutdown left of its claim must not outlive it).
+func failingStop(s *Scenario) *Scenario {
+	s = slowCallbacks(s)
+	s.Name = strings.TrimSuffix(s.Name, "/slow-callbacks") + "/failing"
+	s.Horizon += s.TTL + 2*s.H
+	return s
+}
+
+// preempt-then-release: A (priority 1, watcher running because it followed X first) leads;
+// B (priority 2, takeover) preempts it 20 ms after one of A's heartbeats, A's watcher demotes
+// A at once; 20 ms later B shuts down with DeleteKey and A wins the vacant key again 55 ms
+// after that: A's second term begins before the heartbeat loop of its first term has reached
+// its next tick.
+func scnPreemptThenRelease(name string, k kfn) *Scenario {
+	s := k(&Scenario{Name: name})
+	s.Insts = []InstSpec{{ID: "X", Priority: 1}, {ID: "A", Priority: 1}, {ID: "B", Priority: 2, Takeover: true}}
+	s.Script = starts("X", "A")
+	tDel := 1*s.H + 53*ms
+	tTick := tDel + 55*ms + 2*s.H // A wins at tDel+55ms; its second heartbeat
+	s.Script = append(s.Script,
+		Item{At: tDel, Actor: "stopX", Do: "stopctx", Inst: "X", DeleteKey: true, Fixed: true},
+		Item{At: tTick + 20*ms, Actor: "lifeB", Do: "start", Inst: "B"},
+		Item{At: tTick + 40*ms, Actor: "lifeB", Do: "stopctx", Inst: "B", DeleteKey: true})
+	s.Horizon = tTick + 5*s.H
+	return s.faultFree()
 }
